@@ -295,7 +295,16 @@ def c10b_or_plain_alt(i1: int, i2: int, use_neg: bool) -> bool:
     return r.bindings["x"] is v["a"] and r.bindings["y"] is v["b"]
 
 
-def _ob(name, timeout=200, bounds="", tt=None):
+def _ob(name, timeout=200, bounds="", tt=None, slice_=None):
+    if slice_ is not None:
+        var, n = slice_
+        obs = []
+        for k in range(n):
+            d = _ob(name, timeout, bounds, tt)
+            d["id"] = f"c06.{name}.{var}{k}"
+            d["extra_pres"] = [f"{var} == {k}"]
+            obs.append(d)
+        return obs
     d = {"id": f"c06.{name}", "func": name, "timeout": timeout,
          "functions": ["onnxscript.rewriter._matcher:SimplePatternMatcher", "onnxscript.rewriter._rewrite_rule:Pattern.match",
                        "onnxscript.rewriter._pattern_ir:NodePattern"],
@@ -306,7 +315,10 @@ def _ob(name, timeout=200, bounds="", tt=None):
     return d
 
 
+# the three heaviest classes are sliced on one leaf (5 sub-obligations each, together the same region) to use the cores
 OBLIGATIONS = [
-    _ob("c1_chain", 400, tt=900), _ob("c2_repeated"), _ob("c3_const", 300, "constant value: bounded symbolic index into 12 edge values around rel_tol 1e-5 / abs_tol 1e-8, rank 0..2, const / graph-input flags"),
-    _ob("c4_attrs", 300), _ob("c5_inputs"), _ob("c6_or", 300), _ob("c7_two_outputs"), _ob("c8_commute", 400), _ob("c9_three", 400, tt=900), _ob("c10_or_shared_var", 300), _ob("c10b_or_plain_alt", 300),
+    *_ob("c1_chain", 300, tt=900, slice_=("i1", 5)), _ob("c2_repeated"),
+    *_ob("c3_const", 300, "constant value: bounded symbolic index into 12 edge values around rel_tol 1e-5 / abs_tol 1e-8, rank 0..2, const / graph-input flags", slice_=("i2", 5)),
+    _ob("c4_attrs", 300), _ob("c5_inputs"), _ob("c6_or", 300), _ob("c7_two_outputs"), _ob("c8_commute", 400),
+    *_ob("c9_three", 300, tt=900, slice_=("i0", 5)), _ob("c10_or_shared_var", 300), _ob("c10b_or_plain_alt", 300),
 ]
